@@ -152,7 +152,8 @@ bool DecodeInteger(const ::std::string &text, IntType *result) {
     char c = text[offset];
     IntType digit = 0;
     if (c == '_') {
-      if (offset == 0) {
+      // A number may not start with '_', with or without a sign.
+      if (offset == (negative ? 1U : 0U)) {
         return false;
       }
       continue;
